@@ -3,6 +3,7 @@
 EXTENDS Ty, TLC, Json
 VARIABLE x
 Init == x = 0 /\ PrintT("UNIV1 " \o ToJson(Depth1)) /\ PrintT("UNIV2 " \o ToJson(Depth2))
+                 /\ PrintT("UNIV3 " \o ToJson(Depth3))
 Next == FALSE /\ x' = x
 Spec == Init /\ [][Next]_x
 ================================================================================
